@@ -23,55 +23,9 @@
 (* modules and compares every gradient with the one obtained with one call  *)
 (* per graph (harness/autogradchecks.py).                                   *)
 (***************************************************************************)
-EXTENDS Integers, Sequences, FiniteSets, TLC, Json
+EXTENDS TapeCore, TLC, Json
 
-CONSTANTS Calls,          \* call ids, e.g. 1 .. 3
-          Mods,           \* module objects: "A" and "A2" share a configuration, "B" has other filters
-          Args,           \* argument variants (different sizes)
-          Cots,           \* cotangent sets
-          Depth,          \* events per behaviour
-          StashOnModule, SharedResult
-
-VARIABLES tape, slot, buf, held, hist
-vars == <<tape, slot, buf, held, hist>>
-
-None == [st |-> "none", mod |-> "", arg |-> 0]
-\* configurations: objects A and A2 are built from the same arguments; a Function CLASS is shared by all of them
-ClassOf(m) == "F"
-Init == /\ tape = [c \in Calls |-> None]
-        /\ slot = [k \in {"F"} |-> 0]          \* last call whose forward ran through the Function class
-        /\ buf = [x \in Args |-> <<0, 0>>]      \* shared result buffer per argument shape: <<call, cotangent>> it shows
-        /\ held = {}                            \* gradients handed out and still held by the caller: <<call, cotangent, shape>>
-        /\ hist = << >>
-
-Forward(c, m, x) ==
-    /\ tape[c] = None
-    /\ \A d \in Calls : d < c => tape[d] # None          \* calls are numbered in the order they start
-    /\ tape' = [tape EXCEPT ![c] = [st |-> "recorded", mod |-> m, arg |-> x]]
-    /\ slot' = [slot EXCEPT ![ClassOf(m)] = c]
-    /\ hist' = Append(hist, [a |-> "forward", c |-> c, m |-> m, x |-> x])
-    /\ UNCHANGED <<buf, held>>
-
-\* which call's saved state the backward of c reads
-Reads(c) == IF StashOnModule THEN slot[ClassOf(tape[c].mod)] ELSE c
-Backward(c, k, r) ==
-    /\ tape[c].st = "recorded"
-    /\ tape' = [tape EXCEPT ![c].st = IF r THEN "recorded" ELSE "freed"]
-    /\ buf' = IF SharedResult THEN [buf EXCEPT ![tape[c].arg] = <<c, k>>] ELSE buf
-    /\ held' = held \cup {<<c, k, tape[c].arg>>}
-    /\ hist' = Append(hist, [a |-> "backward", c |-> c, k |-> k, retain |-> r, reads |-> Reads(c)])
-    /\ UNCHANGED slot
-
-Next == /\ Len(hist) < Depth
-        /\ \/ \E c \in Calls, m \in Mods, x \in Args : Forward(c, m, x)
-           \/ \E c \in Calls, k \in Cots, r \in BOOLEAN : Backward(c, k, r)
-Spec == Init /\ [][Next]_vars
-
-\* C05 / C06 / C09 between calls: a backward differentiates ITS call
-TapeOwn == \A i \in DOMAIN hist : hist[i].a = "backward" => hist[i].reads = hist[i].c
-\* a gradient handed out stays what it was: the buffer a held gradient lives in still shows that gradient
-HeldStable == SharedResult => \A h \in held : buf[h[3]] = <<h[1], h[2]>>
-ResultOwn == ~SharedResult \/ HeldStable
+\* state machine, invariants and negative models: module TapeCore (shared with the TLAPS proofs of TapeProofs)
 
 Complete == Len(hist) = Depth
 \* behaviours worth replaying: at least one backward
